@@ -211,6 +211,17 @@ func (c *cluster) checkReplicas(out *cq.Out, rng *cq.Rng, prefix string, desc ma
 	if len(c.acked) == 0 {
 		return
 	}
+	// a replica that was brought up by state transfer and then differs from the others breaks the transfer property (C09)
+	// and the agreement of replicas (C06) alike: the finding is filed under both
+	ids := []string{prefix}
+	if prefix == "C09" {
+		ids = append(ids, "C06")
+	}
+	violate := func(sig, what string) {
+		for _, id := range ids {
+			out.Violate(id+sig, what, desc)
+		}
+	}
 	var fps []string
 	var states []string
 	for i, n := range c.nodes {
@@ -223,7 +234,7 @@ func (c *cluster) checkReplicas(out *cq.Out, rng *cq.Rng, prefix string, desc ma
 	}
 	for i := 1; i < len(fps); i++ {
 		if fps[i] != fps[0] {
-			out.Violate(prefix+":replica-tables-differ", fmt.Sprintf("at a quiescent point the stored tables of the replicas differ (states %v)", states), desc)
+			violate(":replica-tables-differ", fmt.Sprintf("at a quiescent point the stored tables of the replicas differ (states %v)", states))
 			break
 		}
 	}
@@ -249,7 +260,7 @@ func (c *cluster) checkReplicas(out *cq.Out, rng *cq.Rng, prefix string, desc ma
 				if p != nil {
 					ex = p.Exists
 				}
-				out.Violate(prefix+":replica-proof-does-not-verify", fmt.Sprintf("the membership proof served by node %d for event %d at version %d does not verify against the leader's snapshots (panic=%v %s err=%v exists=%v; states %v)", i, k, q, panicked, msg, err, ex, states), desc)
+				violate(":replica-proof-does-not-verify", fmt.Sprintf("the membership proof served by node %d for event %d at version %d does not verify against the leader's snapshots (panic=%v %s err=%v exists=%v; states %v)", i, k, q, panicked, msg, err, ex, states))
 				break
 			}
 			s := uint64(rng.Intn(int(q) + 1))
@@ -263,7 +274,7 @@ func (c *cluster) checkReplicas(out *cq.Out, rng *cq.Rng, prefix string, desc ma
 				err = fmt.Errorf("panic: %s", pmsg)
 			}
 			if !okc {
-				out.Violate(prefix+":replica-consistency-proof-does-not-verify", fmt.Sprintf("the incremental proof (%d,%d) served by node %d does not verify against the leader's snapshots (err=%v)", s, q, i, err), desc)
+				violate(":replica-consistency-proof-does-not-verify", fmt.Sprintf("the incremental proof (%d,%d) served by node %d does not verify against the leader's snapshots (err=%v)", s, q, i, err))
 				break
 			}
 			out.Case(fmt.Sprintf("%s:proof:%d:%d:%d", prefix, i, k, q), k < q)
@@ -272,11 +283,11 @@ func (c *cluster) checkReplicas(out *cq.Out, rng *cq.Rng, prefix string, desc ma
 		d := hashing.NewSha256Hasher().Do(c.events[0])
 		pq, qmsg := cq.Catch(func() {
 			if p, err := n.QueryDigestMembership(d); err == nil && p.CurrentVersion != cur && !c.indet {
-				out.Violate(prefix+":current-version", fmt.Sprintf("node %d reports current version %d, %d events were accepted", i, p.CurrentVersion, len(c.acked)), desc)
+				violate(":current-version", fmt.Sprintf("node %d reports current version %d, %d events were accepted", i, p.CurrentVersion, len(c.acked)))
 			}
 		})
 		if pq {
-			out.Violate(prefix+":query-panic", fmt.Sprintf("a membership query on node %d panicked: %.200s (states %v)", i, qmsg, states), desc)
+			violate(":query-panic", fmt.Sprintf("a membership query on node %d panicked: %.200s (states %v)", i, qmsg, states))
 		}
 	}
 }
